@@ -32,7 +32,10 @@ RULE = ("objects of every kind (network, grid, graph, system, script, trajectory
         "documented-alias table; [omitted keys take the documented defaults] default + minimal dictionaries; [multi-file layouts, "
         "external array files, relative paths resolved against the enclosing file] multifile, multifile-inherit and every file "
         "load, all run FROM A WORKING DIRECTORY HOLDING DECOY FILES with the same relative names and different content; "
-        "[units inheritance: \"default\" / \"inherit\" strings at every nesting level under non-default parents, every alias of "
+        "[direct dictionary route: the object and the dictionary share nothing mutable] coupling: the template dictionary is "
+        "edited in place at every nesting level after *_from_dict (the object must not change), two objects are built from one "
+        "dictionary and the first is edited in depth (the second must not change), the dictionary returned by *_to_dict is edited in "
+        "place (effect on the source object OBSERVED and counted only: outside the statement); [units inheritance: \"default\" / \"inherit\" strings at every nesting level under non-default parents, every alias of "
         "the key, quantities as bare numbers] units-strings + fixed minimal dictionaries; [save/load under any valid file name, both trajectory storage modes] "
         "file-names: families of names whose stems end in characters of '.json' saved TOGETHER in one directory, then all reloaded, "
         "data file name and reference checked; [readers return independent objects holding the documented defaults] sequences: "
@@ -45,6 +48,7 @@ RULE = ("objects of every kind (network, grid, graph, system, script, trajectory
 ASSUMPTIONS = [
     "float(repr(x)) == x and json.loads(json.dumps(d)) == d for the generated dictionaries (CPython json / float repr)",
     "numpy.save / numpy.load and the file system round-trip arrays exactly",
+    "aliasing between an object and a dictionary its writer returned is outside C12's statement: observed, not judged",
 ]
 TRUSTED = [
     "Python-side SI oracle (prefix table of harness/props/c06.py) and the documented-defaults table below (hand-written from documentation/json_and_dict_doc.rst)",
@@ -805,6 +809,147 @@ def guarded(f):
 
 
 # =============================================================================================
+# coupling: dictionaries and objects on the DIRECT route must not share anything mutable
+# =============================================================================================
+def container_ids(d, out=None):
+    if out is None:
+        out = {}
+    if isinstance(d, dict):
+        out[id(d)] = "dict"
+        for v in d.values():
+            container_ids(v, out)
+    elif isinstance(d, list):
+        out[id(d)] = "list"
+        for v in d:
+            container_ids(v, out)
+    return out
+
+
+def harsh_mutate(d):
+    """edit a dictionary form IN PLACE at every nesting level: every leaf replaced, every dict given a new key, every list
+    appended to (the result need not be loadable: it is the objects made BEFORE the edit that are inspected)"""
+    if isinstance(d, dict):
+        for k in list(d.keys()):
+            v = d[k]
+            if isinstance(v, (dict, list)):
+                harsh_mutate(v)
+            elif isinstance(v, bool):
+                d[k] = not v
+            elif isinstance(v, (int, float)):
+                d[k] = v + 1
+            elif isinstance(v, str):
+                d[k] = perturb(v) if perturb(v) != v else ("km" if v in SPACE else "h" if v in TIME else "kmol" if v in QTY else v + "_edited")
+            elif v is None:
+                d[k] = 0
+        d["zz_added"] = True
+    elif isinstance(d, list):
+        for i, v in enumerate(d):
+            if isinstance(v, (dict, list)):
+                harsh_mutate(v)
+            elif isinstance(v, bool):
+                d[i] = not v
+            elif isinstance(v, (int, float)):
+                d[i] = v + 1
+            elif isinstance(v, str):
+                d[i] = v + "_edited"
+        d.append(d[0] if d and not isinstance(d[0], (dict, list)) else 7)
+
+
+def edit_object_deep(obj):
+    """edit IN PLACE everything mutable reachable from an object: units systems, arrays, quantities, per-environment
+    dictionaries (flags flipped), stoichiometric coefficients"""
+    import numpy as np
+    m = S()
+    edit_in_place(obj, None)
+    done = set()
+
+    def walk(o, depth=0):
+        if o is None or depth > 12 or id(o) in done or isinstance(o, (str, int, float, bool)):
+            return
+        done.add(id(o))
+        if isinstance(o, np.ndarray):
+            if o.size and o.dtype.kind in "iu":
+                o[0] = 1 - o[0] if o[0] in (0, 1) else o[0] + 1
+            return
+        if isinstance(o, (list, tuple)):
+            for v in o:
+                walk(v, depth + 1)
+            return
+        if isinstance(o, dict):
+            for k in list(o.keys()):
+                v = o[k]
+                if isinstance(v, bool):
+                    o[k] = not v
+                elif isinstance(v, int):
+                    o[k] = v + 1
+                else:
+                    walk(v, depth + 1)
+            return
+        if type(o) == m["u"].UnitValue:
+            o.value = o.value + 1.0
+            return
+        if (getattr(type(o), "__module__", "") or "").startswith("strengths") and hasattr(o, "__dict__"):
+            for v in vars(o).values():
+                walk(v, depth + 1)
+    walk(obj)
+
+
+def short_field(path):
+    """stable short name of a field inside nested objects: 'system.network.species[1].chstt.env<keys>' -> 'species.chstt'"""
+    import re
+    f = re.sub(r"<[^>]*>", "", field_of(path))
+    while True:
+        g = re.sub(r"^(system|network|space|script)\.", "", f)
+        if g == f:
+            break
+        f = g
+    return ".".join(f.split(".")[:2])
+
+
+def check_coupling(kind, spec, ref):
+    to_d, from_d = conv(kind)[:2]
+    # (1) template dictionary -> object, then the template is edited
+    d = jsonable_dict(to_d(BUILD[kind](spec)))
+    o1, err = guarded(lambda: from_d(d))
+    if err is not None:
+        return fail("direct:%s:raises" % kind, "reading the dictionary form of a %s raises %s" % (kind, err), impl=err)
+    v1 = VIEW[kind](o1)
+    tmpl = container_ids(d)
+    held = [w for i, w in mutable_ids(o1).items() if i in tmpl]
+    harsh_mutate(d)
+    df = diff(v1, VIEW[kind](o1))
+    if df:
+        return fail("coupling:from_dict:%s" % short_field(df[0]),
+                    "editing the template dictionary in place AFTER %s_from_dict(d) changes the object already built: %s" % (kind, df[0]),
+                    impl=df[2], expected=df[1])
+    # (2) two objects from one and the same dictionary, then the first is edited
+    d2 = jsonable_dict(to_d(BUILD[kind](spec)))
+    oa, ea = guarded(lambda: from_d(d2))
+    ob, eb = guarded(lambda: from_d(d2))
+    if ea is None and eb is None:
+        vb = VIEW[kind](ob)
+        edit_object_deep(oa)
+        df = diff(vb, VIEW[kind](ob))
+        if df:
+            return fail("coupling:between-objects:%s" % short_field(df[0]),
+                        "two %ss built from the same dictionary are coupled: editing the first in place changes %s of the second" % (kind, df[0]),
+                        impl=df[2], expected=df[1])
+    # (3) object -> dictionary, then the returned dictionary is edited
+    x3 = BUILD[kind](spec)
+    d3 = to_d(x3)
+    harsh_mutate(d3)
+    df = diff(ref, VIEW[kind](x3))
+    observed = None
+    if df:
+        # aliasing between an object and a dictionary its writer RETURNED is outside C12's statement: observed, not judged
+        observed = short_field(df[0])
+    if held:
+        return fail("aliasing:%s:template" % kind, "the object returned by the %s reader holds a %s of the caller's dictionary (not a copy)" % (kind, held[0]),
+                    impl=held[:3])
+    return True, ({"observed": observed} if observed else {})
+
+
+# =============================================================================================
 # refused edits: calls that MUST raise, made on the object before the round trip; the object must stay as described
 # =============================================================================================
 class NotApplicable(Exception):
@@ -981,6 +1126,13 @@ def check_object(ctx, kind, spec, modes, aliases, rng):
                  sample={"kind": kind, "mode": mode, "holds": holds, "unit_systems": nsys} if ctx.evaluations % 97 == 0 else None)
         ctx.count("mode_" + mode)
         ctx.count("kind_" + kind)
+        if holds and detail.get("observed"):
+            ctx.count("observed:to_dict-aliases-source:%s" % detail["observed"])
+            note = ("observed, not judged (outside C12's statement): editing the dictionary returned by *_to_dict in place changes the "
+                    "source object's %s (the writer returns the object's own dictionary); see proposed_fixes/c12_species_chstt_copy.diff"
+                    % detail["observed"])
+            if note not in ctx.notes:
+                ctx.notes.append(note)
         if not holds:
             ctx.violation(detail["key"], detail["what"], dict(case, **detail.get("extra", {})), impl=detail.get("impl"),
                           expected=detail.get("expected"))
@@ -1101,6 +1253,8 @@ def run_mode(kind, mode, x, ref, spec, tmp, aliases, rng, case):
             return fail("multifile:%s:%s" % (kind, field_of(df[0])), "a %s dictionary with inherited units loaded from several files differs from the same dictionary inline at %s" % (kind, df[0]),
                         impl=df[2], expected=df[1], extra={"bits": bits})
         return True, {}
+    if mode == "coupling":
+        return check_coupling(kind, spec, ref)
     if mode == "units-strings":
         # the STRING forms of "units" at a nested level: "default" = µm/s/molecule whatever the parent, "inherit" = the parent's;
         # the quantities of that dictionary are given as bare numbers, so that the units system decides their SI value
@@ -1489,11 +1643,11 @@ def check_zero_case(sides, text):
     return True, {}
 
 
-MODES = {"network": ["direct", "json", "file-abs", "file-rel", "reserialise", "alias", "default", "units-strings"],
-         "grid": ["direct", "json", "file-abs", "file-rel", "reserialise", "alias", "default"],
-         "graph": ["direct", "json", "file-abs", "file-rel", "reserialise", "alias", "units-strings"],
-         "system": ["direct", "json", "file-abs", "file-rel", "reserialise", "alias", "default", "multifile", "multifile-inherit", "units-strings"],
-         "script": ["direct", "json", "file-abs", "file-rel", "reserialise", "alias", "default", "multifile", "multifile-inherit", "units-strings"],
+MODES = {"network": ["direct", "json", "file-abs", "file-rel", "reserialise", "alias", "default", "units-strings", "coupling"],
+         "grid": ["direct", "json", "file-abs", "file-rel", "reserialise", "alias", "default", "coupling"],
+         "graph": ["direct", "json", "file-abs", "file-rel", "reserialise", "alias", "units-strings", "coupling"],
+         "system": ["direct", "json", "file-abs", "file-rel", "reserialise", "alias", "default", "multifile", "multifile-inherit", "units-strings", "coupling"],
+         "script": ["direct", "json", "file-abs", "file-rel", "reserialise", "alias", "default", "multifile", "multifile-inherit", "units-strings", "coupling"],
          "trajectory": ["file-abs", "file-rel", "file-inline"]}
 
 
